@@ -258,6 +258,56 @@ func init() {
 		return fmt.Sprintf("shared=%s orig-unchanged=%s copy-unchanged=%s", btoa(shared), btoa(origKept), btoa(copyKept))
 	})
 
+	// aliascodon <protein rows> <extra>: CodonAlign threads a set of nucleotide sequences (3 per residue, `extra` = 0..2
+	// further nucleotides on every other row) onto the protein alignment; the codon alignment must own its data:
+	// no overlap with the nucleotide set, writes to one never show in the other
+	register("aliascodon", func(a []string) string {
+		al := alFrom(a[0], align.AMINOACIDS)
+		extra := atoi(a[1])
+		nt := align.NewSeqBag(align.NUCLEOTIDS)
+		codons := []string{"GCT", "AAA", "TGG", "CAT", "GGA"}
+		k := 0
+		for i, r := range rowsOf(al) {
+			var b strings.Builder
+			for _, ch := range r.Seq {
+				if ch != '-' {
+					b.WriteString(codons[k%len(codons)])
+					k++
+				}
+			}
+			if i%2 == 1 {
+				b.WriteString("AC"[:extra])
+			}
+			if err := nt.AddSequence(r.Name, b.String(), ""); err != nil {
+				return "err"
+			}
+		}
+		c, err := al.CodonAlign(nt)
+		if err != nil {
+			return "err"
+		}
+		shared := overlap(spans(nt), spans(c))
+		before := encRows(rowsOf(nt))
+		c.ToLower()
+		for i := 0; i < c.NbSequences(); i++ {
+			if s, ok := c.GetSequenceById(i); ok {
+				for j := 0; j < len(s); j++ {
+					c.SetSequenceChar(i, j, '#')
+				}
+			}
+		}
+		origKept := encRows(rowsOf(nt)) == before
+		cs := encRows(rowsOf(c))
+		nt.ToLower()
+		for i := 0; i < nt.NbSequences(); i++ {
+			if s, ok := nt.GetSequenceById(i); ok && len(s) > 0 {
+				nt.SetSequenceChar(i, 0, '@')
+			}
+		}
+		copyKept := encRows(rowsOf(c)) == cs
+		return fmt.Sprintf("shared=%s orig-unchanged=%s copy-unchanged=%s", btoa(shared), btoa(origKept), btoa(copyKept))
+	})
+
 	// aliasappend <alphabet> <rows> <constructor> [arg]: the derived alignment is grown in place (Concat of a clone of
 	// itself: every row is appended to); each row must then read row+row, and the source must be unchanged.
 	// A derived object whose rows keep spare capacity inside another row's (or the source's) bytes fails here.
